@@ -104,8 +104,7 @@ def run(ctx):
         for modes in ([(0,), (2,)] if k == 1 else [(0, 1), (2, 0)]):
             for pv in range(3 if quick else 6):
                 trip_instrs.append({"cls": cls, "modes": modes, "p": pv, "ti": ti})
-    if quick:
-        trip_instrs = rng.sample(trip_instrs, 24)
+    trip_instrs = rng.sample(trip_instrs, 24 if quick else 48)
     tidef = "{ " + ", ".join(f'[cls |-> "{t["cls"]}", modes |-> {tla_seq(list(t["modes"]))}, p |-> {t["p"]}, ti |-> {t["ti"]}]' for t in trip_instrs) + " }"
     ldef = "<< " + ", ".join(tla_seq(list(v)) for v in LEAVES) + " >>"
     sdef = "{ " + ", ".join(tla_seq(list(s)) for s in SCALARS) + " }"
